@@ -61,6 +61,11 @@ func (sp *Proof) Verify(rootHash []byte, leaf []byte) error {
 		return fmt.Errorf("invalid leaf hash: wanted %X got %X", leafHash, sp.LeafHash)
 	}
 	computedHash := sp.ComputeRootHash()
+	if computedHash == nil {
+		// index, total and the number of aunts do not describe a path in a tree;
+		// without this a nil result would "match" an empty root hash
+		return errors.New("proof does not fit the shape of a tree with the given total")
+	}
 	if !bytes.Equal(computedHash, rootHash) {
 		return fmt.Errorf("invalid root hash: wanted %X got %X", rootHash, computedHash)
 	}
